@@ -1,7 +1,7 @@
 """C20 -- TeamCity output is a balanced, correctly escaped service-message stream.
-Scenario:  <dur> <ntests> { <group> <name> <file> <line> <ignored> <nstmts> { :f <file> <line> <msg> | :x <file> <line> <msg> } }
-           (dur = milliseconds each running test takes on the scripted clock; :f = addFailure and continue, :x = fail() and leave
-           the test; tests run in the order given)
+Scenario:  <dur> <nfilters> { <name> } <ntests> { <group> <name> <file> <line> <ignored> <nstmts> { :f <file> <line> <msg> | :x <file> <line> <msg> } }
+           (dur = milliseconds each running test takes on the scripted clock; filters = strict name filters (-sn), none = every test
+           runs; :f = addFailure and continue, :x = fail() and leave the test; tests are registered in the order given)
            :raw <bytes>  -- parser differential only (no library code): the Coq parser's reading of the bytes is compared with
            the reading of the independent decoder below.
 Observation: <stream> -- everything TeamCityTestOutput handed to printBuffer.
@@ -13,6 +13,7 @@ ID = "C20"
 FLAVOURS = ["asan"]
 HARNESS_SRCS = ["harness/C20.cpp"]
 RULE = ("runs of 0-6 groups x 1-8 scripted tests (pass / fail once / fail several times / fail() then unreachable statements / ignored, "
+        "a quarter of the runs with strict name filters: some tests / whole groups / everything filtered out, "
         "all-ignored groups, equal group names on non-adjacent tests, failures inside the test's file, in another file, above the "
         "test's line); every text (group, test name, source path, failure path, message) drawn from printable ASCII + CR + LF "
         "weighted to ' | [ ] CR LF and to fragments such as |n |' '] ]\\n##teamcity[ ; empty texts and texts ending in | ; "
@@ -21,7 +22,8 @@ RULE = ("runs of 0-6 groups x 1-8 scripted tests (pass / fail once / fail severa
         "malformed messages, read by the Coq parser and by the independent decoder. "
         "non-trivial = some text contains a character with TeamCity meaning, or the run has a failure, an ignored test or more "
         "than one group (for :raw: always)")
-ASSUMPTIONS = ["tests of a run come from the registry in order, no filters (every registered test runs); test bodies do not print "
+ASSUMPTIONS = ["tests of a run come from the registry in order; selection only by strict name filters (no group filters, no shuffling, no repeat, "
+               "ignored tests are not forced to run); test bodies do not print "
                "(UT_PRINT text is copied raw into the stream and is outside the property)",
                "strings are C strings (no NUL); line numbers and the duration are size_t",
                "the clock seam is scripted (the duration value is not constrained by the property, only its quoting)",
@@ -63,8 +65,8 @@ def ser_stmt(st):
     return ":%s %s %x %s" % (st[0], tb(st[1]), st[2], tb(st[3]))
 
 
-def ser(dur, tests):
-    out = ["%x" % dur, "%x" % len(tests)]
+def ser(dur, tests, filters=()):
+    out = ["%x" % dur, "%x" % len(filters)] + [tb(f) for f in filters] + ["%x" % len(tests)]
     for (g, n, f, l, ign, body) in tests:
         out += [tb(g), tb(n), tb(f), "%x" % l, "1" if ign else "0", "%x" % len(body)] + [ser_stmt(s) for s in body]
     return " ".join(out)
@@ -80,7 +82,9 @@ def is_raw(s):
 
 def parse_scn(s):
     t = s.split()
-    dur = int(t[0], 16); n = int(t[1], 16); i = 2
+    dur = int(t[0], 16); nf = int(t[1], 16)
+    filters = [unb(x) for x in t[2:2 + nf]]
+    n = int(t[2 + nf], 16); i = 3 + nf
     tests = []
     for _ in range(n):
         g, nm, f, l, ign, m = unb(t[i]), unb(t[i + 1]), unb(t[i + 2]), int(t[i + 3], 16), t[i + 4] != "0", int(t[i + 5], 16)
@@ -89,7 +93,11 @@ def parse_scn(s):
         for _ in range(m):
             body.append((t[i][1:], unb(t[i + 1]), int(t[i + 2], 16), unb(t[i + 3]))); i += 4
         tests.append((g, nm, f, l, ign, body))
-    return dur, tests
+    return dur, filters, tests
+
+
+def selected(filters, t):
+    return not filters or t[1] in filters
 
 
 LINES = [0, 1, 9, 10, 99, 100, 12345, 2147483647, 4294967296, 18446744073709551615]
@@ -133,7 +141,20 @@ def gen_tests(rng, special=True, big=False):
 
 def gen_run(rng, special=True, big=False):
     dur = rng.choice([0, 0, 1, 5, 9, 10, 42, 1000, 123456789, 4294967295, 4294967296, rng.randrange(0, 1 << 40)])
-    return ser(dur, gen_tests(rng, special, big))
+    tests = gen_tests(rng, special, big)
+    filters = []
+    if tests and rng.random() < 0.25:
+        names = sorted(set(t[1] for t in tests))
+        c = rng.random()
+        if c < 0.15:
+            filters = [b"no such test"]                       # nothing runs: every suite is empty
+        else:
+            filters = rng.sample(names, rng.randrange(1, min(len(names), 4) + 1))
+            if rng.random() < 0.2:
+                filters.append(filters[0][:-1] if filters[0] else b"x")   # a filter that is only a prefix of a name (strict: no match)
+            if rng.random() < 0.15:
+                filters.append(filters[0])                   # the same filter twice
+    return ser(dur, tests, filters)
 
 
 def corpus_like():
@@ -219,7 +240,7 @@ def generate(tier, rng):
 
 
 def _texts(s):
-    dur, tests = parse_scn(s)
+    dur, filters, tests = parse_scn(s)
     names = [x for t in tests for x in (t[0], t[1], t[2])] + [st[1] for t in tests for st in t[5]]
     msgs = [st[3] for t in tests for st in t[5]]
     return tests, names, msgs
@@ -263,6 +284,11 @@ def classify(s):
     gn = [g[0][0] for g in segs]
     if len(set(gn)) < len(gn): lab.append("group name repeated non-adjacently")
     if any(c >= 0x80 or c < 0x20 and c not in (10, 13) for b in names + msgs for c in b): lab.append("byte outside printable ASCII")
+    filters = parse_scn(s)[1]
+    if filters:
+        lab.append("name filters")
+        if any(not any(selected(filters, t) for t in g) for g in segs): lab.append("group with no selected test (empty suite)")
+        if any(selected(filters, t) for t in tests) and not all(selected(filters, t) for t in tests): lab.append("some tests filtered out")
     return lab
 
 
@@ -316,7 +342,7 @@ def reached(body):
 
 def judge(s, obs):
     """None or text of what is wrong with the stream of this run (the property, stated over the decoded messages)"""
-    dur, tests = parse_scn(s)
+    dur, filters, tests = parse_scn(s)
     try:
         msgs = decode_stream(unb(obs.split()[0]))
     except ValueError as e:
@@ -351,6 +377,8 @@ def judge(s, obs):
     for g in segments(tests):
         exp.append((b"testSuiteStarted", g[0][0], None, None))
         for t in g:
+            if not selected(filters, t):
+                continue
             exp.append((b"testStarted", t[1], None, None))
             if t[4]:
                 exp.append((b"testIgnored", t[1], None, None))
@@ -426,16 +454,21 @@ def signature(s, obs):
 def shrink(s):
     if is_raw(s):
         return
-    dur, tests = parse_scn(s)
+    dur, filters, tests = parse_scn(s)
     if dur:
-        yield ser(0, tests)
+        yield ser(0, tests, filters)
+    if filters:
+        yield ser(dur, tests, [])
+        for i in range(len(filters)):
+            if len(filters) > 1:
+                yield ser(dur, tests, filters[:i] + filters[i + 1:])
     for i in range(len(tests)):
         if len(tests) > 1:
-            yield ser(dur, tests[:i] + tests[i + 1:])
+            yield ser(dur, tests[:i] + tests[i + 1:], filters)
     for i, t in enumerate(tests):
         g, n, f, l, ign, body = t
         for j in range(len(body)):
-            yield ser(dur, tests[:i] + [(g, n, f, l, ign, body[:j] + body[j + 1:])] + tests[i + 1:])
+            yield ser(dur, tests[:i] + [(g, n, f, l, ign, body[:j] + body[j + 1:])] + tests[i + 1:], filters)
     def shorter(b):
         if len(b) > 1:
             yield b[:len(b) // 2]
@@ -449,28 +482,31 @@ def shrink(s):
             for c in shorter(t[fld]):
                 if fld == 0:
                     # keep the group structure: rename every test of this group name
-                    yield ser(dur, [((c,) + x[1:]) if x[0] == g else x for x in tests])
+                    yield ser(dur, [((c,) + x[1:]) if x[0] == g else x for x in tests], filters)
                 else:
                     tt = list(t); tt[fld] = c
+                    if fld == 1 and n in filters:
+                        # keep the test selected: shorten the filter too
+                        yield ser(dur, tests[:i] + [tuple(tt)] + tests[i + 1:], [c if x == n else x for x in filters])
                     if fld == 2 and any(st[1] == f for st in body):
                         # keep "failure in the test's own file": shorten the path in the statements too
                         tt[5] = [(st[0], c, st[2], st[3]) if st[1] == f else st for st in body]
-                        yield ser(dur, tests[:i] + [tuple(tt)] + tests[i + 1:])
+                        yield ser(dur, tests[:i] + [tuple(tt)] + tests[i + 1:], filters)
                         tt = list(t); tt[fld] = c
-                    yield ser(dur, tests[:i] + [tuple(tt)] + tests[i + 1:])
+                    yield ser(dur, tests[:i] + [tuple(tt)] + tests[i + 1:], filters)
         if l > 1:
             if any(st[2] < l for st in body):
                 # keep "failure above the test's line": those failures move to line 0
-                yield ser(dur, tests[:i] + [(g, n, f, 1, ign, [(st[0], st[1], 0, st[3]) if st[2] < l else st for st in body])] + tests[i + 1:])
-            yield ser(dur, tests[:i] + [(g, n, f, 1, ign, body)] + tests[i + 1:])
+                yield ser(dur, tests[:i] + [(g, n, f, 1, ign, [(st[0], st[1], 0, st[3]) if st[2] < l else st for st in body])] + tests[i + 1:], filters)
+            yield ser(dur, tests[:i] + [(g, n, f, 1, ign, body)] + tests[i + 1:], filters)
         for j, st in enumerate(body):
             for fld in (1, 3):
                 for c in shorter(st[fld]):
                     ss = list(st); ss[fld] = c
-                    yield ser(dur, tests[:i] + [(g, n, f, l, ign, body[:j] + [tuple(ss)] + body[j + 1:])] + tests[i + 1:])
+                    yield ser(dur, tests[:i] + [(g, n, f, l, ign, body[:j] + [tuple(ss)] + body[j + 1:])] + tests[i + 1:], filters)
             if st[2] > 1:
                 ss = list(st); ss[2] = 1
-                yield ser(dur, tests[:i] + [(g, n, f, l, ign, body[:j] + [tuple(ss)] + body[j + 1:])] + tests[i + 1:])
+                yield ser(dur, tests[:i] + [(g, n, f, l, ign, body[:j] + [tuple(ss)] + body[j + 1:])] + tests[i + 1:], filters)
 
 
 LEVEL_TEXT = ("Machine-checked (Coq) theorems over an executable model of TeamCityTestOutput (currtest_, currGroup_, groupOpen_, printEscaped, the pieces "
